@@ -657,7 +657,9 @@ def _add_lmi(b, owner="pep", force_kind=None, force_name=None):
         b.emit({"op": "leafexpr", "out": t})
         b.exprs.append(t); b.values.append(t)
         ip = b.expr([[1.0, "ip", p, q]])
-        rows = [[t, ip], [ip, 1.0]]
+        # the corner entry is the leaf itself or a multiple of it written as an expression of its own (t / 2)
+        w = b.pick([None, None, 0.5, 2.0])
+        rows = [[t if w is None else b.expr([[w, "e", t]]), ip], [ip, 1.0]]
         b.cons(t, "<=", 5.0)
     elif kind == "sym2":
         d1 = b.expr([[1.0, "sq", p], [1.0, "const"]])
